@@ -199,5 +199,7 @@ BASE_ASSUMPTIONS = [
     "CPython's ast parser defines precedence/associativity of the expression language",
     "mpmath (60 digits) and the reference evaluator vf/refmodel (running error bound, decision margins) are correct",
     "points within 1e-6 (relative) of a discontinuity, or ill-conditioned (err > 1e-9*|value|), are not judged",
+    "points where a sub-expression of the model text exceeds 1e300 or is below 1e-290 in magnitude are not judged (a saturated ContinuousConditional weight counts as 0 / 1); "
+    "a derivative with respect to a variable that sits exactly on the switching point of a relation is not judged",
     "sampled exploration: says nothing about models, inputs or options the workload did not produce",
 ]
